@@ -23,13 +23,14 @@ from concurrent.futures import ThreadPoolExecutor
 CHECKS = {
     'C09': dict(
         engine='PoolLife',
-        technique='TLA+ spec PoolLife.tla (pool registry keyed by worker id, _closed never reset, per-worker cleanup threads close->wait->terminate, restart re-keying, add_worker failure paths) model-checked with TLC over all API histories; pre-fix and what-if variants rejected; histories enumerated by TLC (exhaustive path dump, simulation) replayed on real Pools with real thread/process(/remote) workers, tiny close_timeout, /proc scan after every step; TLC judges every real history (PoolLifeJudge); model outcomes vs real outcomes = conformance',
-        text='Exhaustive TLC model checking of pool life-cycle histories (<= 6 calls, <= 3 workers, thread/process(/remote), force none/False), bound to the code by replaying TLC-enumerated histories on real pools and judging each step (OS process table, per-run results, who was handed work) with the same TLA+ operators.',
+        technique='TLA+ spec PoolLife.tla (pool registry keyed by worker id, _closed never reset, per-worker cleanup threads close->wait->terminate, restart re-keying, add_worker failure paths, _pool_closed set at the END of _close, close interrupted by an exception in the closing thread) model-checked with TLC over all API histories; pre-fix and what-if variants rejected; histories enumerated by TLC (exhaustive path dump, simulation) replayed on real Pools with real thread/process(/remote) workers, tiny close_timeout, /proc scan after every step; TLC judges every real history (PoolLifeJudge); model outcomes vs real outcomes = conformance',
+        text='Exhaustive TLC model checking of pool life-cycle histories (<= 5 calls quick / <= 6 thorough, <= 3 workers, thread/process(/remote), force none/False, incl. close/with-exit cut short by an exception while joining the clean-up threads), bound to the code by replaying TLC-enumerated histories on real pools and judging each step (OS process table, per-run results, who was handed work) with the same TLA+ operators.',
         note='Trusted: TLC; Pool.run abstracted to its effect on the bookkeeping (the loop itself is Pool.tla / C07); worker-level outcomes of close/wait/terminate taken from the C04 model; /proc (session scan) as ground truth; a colliding worker id is produced with a subclass that reports a given id. Replay covers a seeded sample of the enumerated histories.',
         design_ref='6/C09'),
 }
 
 CLOSE_T = 0.3
+INTERRUPT_AFTER = 0.08
 OP_BOUND = 20.0
 
 
@@ -229,7 +230,10 @@ def host_main(case_path, out_path):
                 oc, r = bounded(lambda: pool.add_worker(wtype['process'], target=5))   # not callable: the constructor raises
                 st['outcome'] = oc
             elif name == 'dup':
-                o = ws[int(arg) - 1]
+                o = ws[int(arg) - 1] if int(arg) <= len(ws) else None
+                if o is None or 'obj' not in o:
+                    res['truncated'] = 'op %s not applicable on this tree' % op
+                    break
                 oid = tuple(o['obj'].id)
                 oc, r = bounded(lambda: pool.add_worker(ccls[o['kind']], forced_id=oid, **hostkw(o['kind'])))
                 st['outcome'] = oc
@@ -304,7 +308,10 @@ def host_main(case_path, out_path):
                 if w is None or 'obj' not in w or w['kind'] == 'thread' or not w['pids']:
                     res['truncated'] = 'op %s not applicable on this tree' % op
                     break
-                os.kill(w['pids'][-1], signal.SIGKILL)
+                try:
+                    os.kill(w['pids'][-1], signal.SIGKILL)
+                except OSError:
+                    pass                        # already gone (e.g. a close that was meant to be interrupted completed)
                 t0 = time.monotonic()
                 while not _proc_dead(w['pids'][-1]) and time.monotonic() - t0 < 5:
                     time.sleep(0.003)
@@ -319,11 +326,42 @@ def host_main(case_path, out_path):
                 oc, r = bounded(lambda: w['obj'].enqueue(x))
                 st['outcome'] = oc
                 t0 = time.monotonic()
-                while len(os.listdir(flagdir)) <= nflags and time.monotonic() - t0 < 10:
+                already = any(f.startswith('stuck.%d.' % (w['pids'][-1] if w['pids'] else me)) for f in os.listdir(flagdir)) and w['kind'] != 'thread'
+                while oc == 'ok' and not already and len(os.listdir(flagdir)) <= nflags and time.monotonic() - t0 < 10:
                     time.sleep(0.005)
-                if len(os.listdir(flagdir)) <= nflags:
+                if oc == 'ok' and not already and len(os.listdir(flagdir)) <= nflags:
                     raise RuntimeError('harness: the worker did not reach the sticking target')
                 time.sleep(0.05)
+            elif name in ('closeint', 'termint'):
+                # close()/terminate() cut short by an exception raised in the closing (= main) thread while it joins the
+                # clean-up threads: a SIGALRM handler raises KeyboardInterrupt shortly after the call has started (a busy
+                # worker keeps its clean-up thread in wait(timeout) for CLOSE_T seconds)
+                st['closing'] = 'T'
+
+                def on_alarm(*a):
+                    raise KeyboardInterrupt('interrupted while closing the pool')
+                old_h = signal.signal(signal.SIGALRM, on_alarm)
+                r = None
+                try:
+                    signal.setitimer(signal.ITIMER_REAL, INTERRUPT_AFTER)
+                    try:
+                        pool.close() if name == 'closeint' else pool.__exit__(RuntimeError, RuntimeError('exception in the with-body'), None)
+                        oc = 'ok'
+                    finally:
+                        signal.setitimer(signal.ITIMER_REAL, 0)
+                except KeyboardInterrupt as e:
+                    oc, r = 'raised', e
+                except BaseException as e:  # noqa
+                    oc, r = 'raised', e
+                finally:
+                    signal.setitimer(signal.ITIMER_REAL, 0)
+                    signal.signal(signal.SIGALRM, old_h)
+                st['outcome'] = oc
+                if oc == 'ok':
+                    closed[0] = True
+                else:
+                    st['exc'] = type(r).__name__
+                    time.sleep(2 * CLOSE_T + 0.2)  # aborted clean-up threads leave their wait(); a thread that was not aborted finishes its terminate()
             elif name in ('close', 'terminate', 'exc'):
                 st['closing'] = 'T'
                 if name == 'close':
@@ -408,6 +446,17 @@ CURATED = [
     ('none', ['addfail', 'add:process', 'addfail', 'run', 'close']),
     ('none', ['attach:thread', 'attach:process', 'run', 'runp', 'run', 'terminate']),
     ('none', ['add:process', 'add:process', 'runp', 'add:process', 'run', 'close']),
+    # close / with-exit cut short by an exception while joining the clean-up threads, then a call that returns normally.
+    # (CPython 3.12.0-3.12.2 marks the thread whose join() was interrupted as stopped, so the pool's except branch only
+    # aborts the OTHER clean-up threads: the survivor is a stuck worker that is not first in the registry)
+    ('none', ['add:process', 'add:process', 'stick:1', 'stick:2', 'closeint', 'close']),
+    ('none', ['add:process', 'add:process', 'stick:2', 'stick:1', 'termint', 'terminate']),
+    ('none', ['add:thread', 'add:process', 'stick:1', 'stick:2', 'closeint', 'exc']),
+    ('none', ['attach:process', 'add:process', 'stick:1', 'stick:2', 'termint', 'closeint', 'close']),
+    ('none', ['add:process', 'add:process', 'add:process', 'stick:1', 'stick:3', 'closeint', 'close']),
+    ('none', ['add:process', 'stick:1', 'closeint', 'close']),
+    ('false', ['add:process', 'add:process', 'stick:1', 'stick:2', 'closeint', 'terminate']),
+    ('none', ['add:process', 'add:process', 'closeint', 'close']),
 ]
 CURATED_REMOTE = [
     ('none', ['add:remote', 'add:process', 'run', 'kill:1', 'run', 'close']),
@@ -416,6 +465,8 @@ CURATED_REMOTE = [
     ('none', ['add:remote', 'add:thread', 'runp', 'restart', 'run', 'exc']),
     ('false', ['add:remote', 'stick:1', 'terminate']),
     ('none', ['attach:remote', 'close', 'add:remote', 'close']),
+    ('none', ['add:process', 'add:remote', 'stick:1', 'stick:2', 'closeint', 'close']),
+    ('none', ['add:remote', 'add:remote', 'stick:1', 'stick:2', 'termint', 'exc']),
 ]
 
 
@@ -423,7 +474,7 @@ def _interesting(ops):
     base = [o.partition(':')[0] for o in ops]
     if base[0] not in ('add', 'attach'):
         return False
-    if not any(b in ('run', 'runp', 'restart', 'close', 'terminate', 'exc') for b in base):
+    if not any(b in ('run', 'runp', 'restart', 'close', 'terminate', 'exc', 'closeint', 'termint') for b in base):
         return False
     # nothing but closing calls after the first close is only interesting once or twice
     return True
@@ -442,6 +493,7 @@ def _select(tier, rng, free4, sim6, remote):
         add(f, ops)
     add('none', ['add:process', 'add:thread', 'stick:1', 'close'], 'sleep')
     add('none', ['add:thread', 'add:process', 'stick:2', 'exc'], 'sleep')
+    add('none', ['add:process', 'add:process', 'stick:1', 'stick:2', 'closeint', 'terminate'], 'sleep')
     if remote:
         for f, ops in CURATED_REMOTE:
             add(f, ops)
@@ -449,7 +501,7 @@ def _select(tier, rng, free4, sim6, remote):
     pool6 = sorted(set((f, tuple(h.split())) for f, h in sim6 if _interesting(h.split())))
     rng.shuffle(pool4)
     rng.shuffle(pool6)
-    n4, n6 = (90, 50) if tier == 'quick' else (1200, 500)
+    n4, n6 = (70, 30) if tier == 'quick' else (1200, 500)
     for f, ops in pool4[:n4]:
         add(f, ops, rng.choice(['swallow', 'swallow', 'sleep']))
     for f, ops in pool6[:n6]:
@@ -529,17 +581,19 @@ def run(prop, tier, replay=None):
 
     remote = tier == 'thorough'
     kinds = 'KindsAll' if remote else 'KindsTP'
+    mo = '6' if tier == 'thorough' else '5'
     # ---- 1. TLC: the design with both fixes; pre-fix and what-if variants rejected; witnesses ----
     jobs = {
-        'mc': dict(cfg=_mc_cfg(MaxOps='6', Kinds=kinds), workers=8, label='exhaustive, histories <= 6, <= 3 workers, both fixes applied'),
+        'mc': dict(cfg=_mc_cfg(MaxOps=mo, Kinds=kinds), workers=8, label='exhaustive, histories <= %s, <= 3 workers, both fixes applied' % mo),
         'pre_all': dict(cfg=_mc_cfg(MaxOps='4', Fix='FixNone'), workers=2, expect='invariant:', label='code as it is (must be rejected)'),
         'pre_dup': dict(cfg=_mc_cfg(MaxOps='4', Fix='FixNoDup'), workers=2, expect='invariant:Inv_NoLeak', label='without the duplicate-id guard (must be rejected)'),
         'pre_closed': dict(cfg=_mc_cfg(MaxOps='4', Fix='FixNoClosed'), workers=2, expect='invariant:Inv_AllDead', label='without the closed-pool guard (must be rejected)'),
         'whatif_reuse': dict(cfg=_mc_cfg(MaxOps='4', ReuseKeys='TRUE'), workers=2, expect='invariant:Inv_RestartedGetWork', label='what-if: restart keeps the worker id (must be rejected)'),
         'whatif_noreinit': dict(cfg=_mc_cfg(MaxOps='4', NoReinit='TRUE'), workers=2, expect='invariant:Inv_RunIsolated', label='what-if: run does not reset _retries (must be rejected)'),
+        'whatif_earlyflag': dict(cfg=_mc_cfg(MaxOps='4', EarlyFlag='TRUE'), workers=2, expect='invariant:Inv_AllDead', label='what-if: _close sets _pool_closed before the clean-up (must be rejected)'),
         'whatif_norekey': dict(cfg=_mc_cfg(MaxOps='4', NoRekey='TRUE'), workers=2, expect='invariant:Inv_RunIsolated', label='what-if: restart_workers does not re-key (must be rejected)'),
     }
-    for w in ('W_ClosedWithStuck', 'W_RestartAfterDeath', 'W_DupRaised', 'W_RunAfterPoison', 'W_ForceFalseSurvivor'):
+    for w in ('W_ClosedWithStuck', 'W_RestartAfterDeath', 'W_DupRaised', 'W_RunAfterPoison', 'W_ForceFalseSurvivor', 'W_InterruptedStuck'):
         jobs[w] = dict(cfg=_mc_cfg(MaxOps='5') + 'INVARIANT ' + w + '\n', workers=2, expect='invariant:' + w, label='witness ' + w)
     jobs['free4'] = dict(cfg=_dump_cfg(MaxOps='4', MaxW='2', Fix='FixNone', Kinds=kinds), workers=1, label='path dump: every history of 4 calls, <= 2 workers (code as it is)')
     jobs['sim6'] = dict(cfg=_dump_cfg(MaxOps='6', MaxW='3', Fix='FixNone', Kinds=kinds), workers=1, label='simulation: histories of 6 calls, <= 3 workers',
@@ -547,8 +601,12 @@ def run(prop, tier, replay=None):
 
     def tlc_job(nm):
         j = jobs[nm]
-        return nm, tlc.run('PoolLifeMC', cfg_text=j['cfg'], workers=j['workers'], name=nm, must_complete=False, timeout=3000,
-                           simulate=j.get('simulate'), depth=60 if j.get('simulate') else None, seed=seed() if j.get('simulate') else None)
+        for attempt in (1, 2):
+            r = tlc.run('PoolLifeMC', cfg_text=j['cfg'], workers=j['workers'], name=nm, must_complete=False, timeout=3000,
+                        simulate=j.get('simulate'), depth=60 if j.get('simulate') else None, seed=seed() if j.get('simulate') else None)
+            if r.error is not None or r.completed or j.get('simulate'):
+                break                  # a JVM that died without a verdict (machine under load) is run once more
+        return nm, r
     with ThreadPoolExecutor(max_workers=6) as ex:
         results = dict(ex.map(tlc_job, list(jobs)))
     wit = {}
@@ -575,7 +633,7 @@ def run(prop, tier, replay=None):
         json.dump([{k: p[k] for k in ('id', 'force', 'ops')} for p in plans], f)
     allowed = {}
     for label, fx in (('pre', 'FixNone'), ('fix', 'FixAll')):
-        c = _dump_cfg(MaxOps='6', MaxW='4', Fix=fx, Kinds=kinds, Plans='PlanSet', Free='FALSE')
+        c = _dump_cfg(MaxOps='8', MaxW='4', Fix=fx, Kinds=kinds, Plans='PlanSet', Free='FALSE')
         rp = tlc.run('PoolLifeMC', cfg_text=c, workers=4, env={'CASE_FILE': pf}, name='plan_' + label, timeout=1200)
         if rp.error:
             raise MachineryError('plan run failed: %s\n%s' % (rp.error, rp.stdout[-1200:]))
@@ -616,6 +674,8 @@ def run(prop, tier, replay=None):
             ctx.append('dup')
         if any(x in ('close', 'terminate', 'exc') for x in prev) and any(x in ('add', 'attach') for x in prev[min(i for i, x in enumerate(prev) if x in ('close', 'terminate', 'exc')):]):
             ctx.append('add-after-close')
+        if any(x in ('closeint', 'termint') for x in prev):
+            ctx.append('after-interrupted-close')
         kinds_ = sorted(set(o.partition(':')[2] for o in case['ops'] if o.startswith(('add:', 'attach:'))))
         sig = 'C09|%s|op=%s|ctx=%s|force=%s|outcome=%s|alive_owned=%s|live_unreg=%s|extra=%d|deadwork=%d|norestartwork=%d|spoiled=%d' % (
             name, s['op'], '+'.join(ctx) or 'plain', case['force'], s['outcome'],
@@ -649,14 +709,14 @@ def run(prop, tier, replay=None):
     ev.cov['rule'] = ('case = (force setting, API history, kind of sticking); histories enumerated by TLC (all %d histories of 4 calls, %d simulated of 6 calls), '
                       'seeded selection of %d plus %d curated; non-trivial = some step had a live process worker or ran/restarted workers'
                       % (len(set(free4)), len(set(sim6)), len(plans) - len(CURATED) - 2 - (len(CURATED_REMOTE) if remote else 0),
-                         len(CURATED) + 2 + (len(CURATED_REMOTE) if remote else 0)))
+                         len(CURATED) + 3 + (len(CURATED_REMOTE) if remote else 0)))
     ev.cov['exhaustive'] = False
     ev.cov['replayed_cases'] = len(records)
     ev.cov['steps_by_op'] = {}
     for r_ in records:
         for s in r_['obs']['steps']:
             ev.cov['steps_by_op'][s['op']] = ev.cov['steps_by_op'].get(s['op'], 0) + 1
-    for rec in records[:2] + records[len(CURATED) + 2:len(CURATED) + 4]:
+    for rec in records[:2] + records[len(CURATED) + 3:len(CURATED) + 4]:
         ev.sample({'scn': rec['scn'], 'obs': rec['obs'], 'model_outcomes_code_as_is': sorted(allowed['pre'].get(rec['id'], ()))[:4]})
     ev.assumptions += ['Pool.run is abstracted to its effect on the bookkeeping; its loop is the subject of Pool.tla (C07/C08)',
                        'worker ids are not reused by the OS within a history (fresh keys); the what-if variant ReuseKeys shows what breaks otherwise',
